@@ -1,1 +1,142 @@
-From RC Require Import SafeFinalProps.
+(** C09 - "the weak count is exact ([weak_count] = number of existing Weak handles); the side
+    record (the weak metadata) stays allocated exactly as long as a Weak or the box needs it and is
+    freed exactly once".
+    Statements only; every proof is [exact <lemma of SafeFinalProps.v>].  State-level over part
+    A's invariant [SInv K b E W m] (InvP.v) and [NoBad m] (= [no_badU m = true]: no model-detected
+    misbehaviour other than Fuel / Abort / counter underflow was logged), for every [K].
+    [wrefs m o] (Inv.v) is the number of Weak handles to [o] in weak slots, the parameters of
+    running new_cyclic closures, Cleanable handles and Weak fields; [W] are Weak handles in
+    flight inside straight-line code ([W = []] at every call boundary).  Unlike the strong count,
+    the weak count is exact also after panics ([b] arbitrary). *)
+From Coq Require Import NArith Bool List Lia.
+From stdpp Require Import base list option.
+From RecordUpdate Require Import RecordSet.
+From RC Require Import Hdr Machine RunInd Inv InvP SafeMain SafeProps Pass PassMain SafeFinalPropsA SafeFinalProps.
+Import ListNotations RecordSetNotations.
+Local Open Scope N_scope.
+
+(** allocated box: the side record exists iff a Weak exists or existed (header bit), is not
+    freed, is accessible, and its counter is the number of existing Weak handles *)
+Theorem C09_weak_count_exact :
+  forall (K : conf) (b : bool) (E : list id) (m : machine) (o : id) (x : obj),
+  SInv K b E [] m -> get m o = Some x -> o_box x = BAlloc ->
+  match o_side x with
+  | Some s => w_cnt (sd_wk s) = N.of_nat (wrefs m o) /\ sd_freed s = false /\ w_acc (sd_wk s) = true
+  | None => wrefs m o = 0%nat
+  end.
+Proof. exact SafeFinalProps.weak_count_exact. Qed.
+Print Assumptions C09_weak_count_exact.
+
+(** the same at inner points, counting the Weak handles in flight; plus the header bit and the
+    bound *)
+Theorem C09_weak_count_exact_inflight :
+  forall (K : conf) (b : bool) (E : list id) (W : list wref) (m : machine) (o : id) (x : obj),
+  SInv K b E W m -> get m o = Some x -> o_box x = BAlloc ->
+  match o_side x with
+  | Some s => w_cnt (sd_wk s) = N.of_nat (wrefs m o + cnt_wr o W) /\ sd_freed s = false /\
+              w_acc (sd_wk s) = true /\ h_side (o_hdr x) = true /\ w_cnt (sd_wk s) <= max_weak
+  | None => (wrefs m o + cnt_wr o W = 0)%nat /\ h_side (o_hdr x) = false
+  end.
+Proof. exact SafeFinalProps.weak_count_exact_W. Qed.
+Print Assumptions C09_weak_count_exact_inflight.
+
+(** [Cc::weak_count] as observed by the program is the number of existing Weak handles *)
+Theorem C09_obs_weak_count :
+  forall (K : conf) (b : bool) (E : list id) (self : option id) (l : loc) (m : machine) (r : rloc) (o : id),
+  SInv K b E [] m -> resolve self l m = (m, Some r) -> read_loc r m = Some o ->
+  (exists x : obj, get m o = Some x /\ o_box x = BAlloc /\ o_vst x = VLive /\ mem_id o (dead m) = false /\ o_ismap x = false) ->
+  exists (rc : N) (fin : bool),
+    cmd_obs self l m = ok (emit (EObs o rc (N.of_nat (wrefs m o)) fin true) m) ROk.
+Proof. exact SafeFinalProps.obs_weak_count. Qed.
+Print Assumptions C09_obs_weak_count.
+
+(** [Weak::weak_count] through an existing Weak handle: the exact number, whatever the state of
+    the target (alive, dropped, freed); nothing is logged *)
+Theorem C09_weak_weak_count :
+  forall (K : conf) (b : bool) (E : list id) (W : list wref) (m : machine) (o : id),
+  SInv K b E W m -> (0 < wrefs m o + cnt_wr o W)%nat ->
+  weak_weak_count (WTo o) m = (m, N.of_nat (wrefs m o + cnt_wr o W)).
+Proof. exact SafeFinalProps.weak_weak_count_exact. Qed.
+Print Assumptions C09_weak_weak_count.
+
+(** freed box with a Weak handle left: the side record is still there, not freed, no longer
+    accessible, counter exact *)
+Theorem C09_side_alive_while_weak :
+  forall (K : conf) (b : bool) (E : list id) (m : machine) (o : id) (x : obj),
+  SInv K b E [] m -> get m o = Some x -> o_box x = BFreed -> (0 < wrefs m o)%nat ->
+  exists s : side, o_side x = Some s /\ sd_freed s = false /\ w_cnt (sd_wk s) = N.of_nat (wrefs m o) /\
+                   w_acc (sd_wk s) = false.
+Proof. exact SafeFinalProps.side_alive_while_weak_freed. Qed.
+Print Assumptions C09_side_alive_while_weak.
+
+(** allocated box with a Weak handle: side record there, not freed, accessible, counter exact *)
+Theorem C09_side_alive_while_weak_alloc :
+  forall (K : conf) (b : bool) (E : list id) (m : machine) (o : id) (x : obj),
+  SInv K b E [] m -> get m o = Some x -> o_box x = BAlloc -> (0 < wrefs m o)%nat ->
+  exists s : side, o_side x = Some s /\ sd_freed s = false /\ w_cnt (sd_wk s) = N.of_nat (wrefs m o) /\
+                   w_acc (sd_wk s) = true.
+Proof. exact SafeFinalProps.side_alive_while_weak_alloc. Qed.
+Print Assumptions C09_side_alive_while_weak_alloc.
+
+(** a freed side record has no Weak handle left and belongs to a freed box (nothing can use it
+    again) *)
+Theorem C09_side_freed_no_weak :
+  forall (K : conf) (b : bool) (E : list id) (m : machine) (o : id) (x : obj) (s : side),
+  SInv K b E [] m -> get m o = Some x -> o_box x <> BNotYet -> o_side x = Some s -> sd_freed s = true ->
+  wrefs m o = 0%nat /\ o_box x = BFreed.
+Proof. exact SafeFinalProps.side_freed_no_weak. Qed.
+Print Assumptions C09_side_freed_no_weak.
+
+(** no double free ([sfree] / [dealloc] on something already freed), no use after free or drop,
+    no double drop was ever logged *)
+Theorem C09_side_freed_once :
+  forall m : machine, NoBad m ->
+  forall o : nat, ~ In (EBad DoubleFree o) (log m) /\ ~ In (EBad UseAfterFree o) (log m) /\
+                  ~ In (EBad UseAfterDrop o) (log m) /\ ~ In (EBad DoubleDrop o) (log m).
+Proof. exact SafeFinalProps.side_freed_once. Qed.
+Print Assumptions C09_side_freed_once.
+
+(** ** Pins *)
+Check C09_weak_count_exact :
+  forall (K : conf) (b : bool) (E : list id) (m : machine) (o : id) (x : obj),
+  SInv K b E [] m -> get m o = Some x -> o_box x = BAlloc ->
+  match o_side x with
+  | Some s => w_cnt (sd_wk s) = N.of_nat (wrefs m o) /\ sd_freed s = false /\ w_acc (sd_wk s) = true
+  | None => wrefs m o = 0%nat
+  end.
+Check C09_weak_count_exact_inflight :
+  forall (K : conf) (b : bool) (E : list id) (W : list wref) (m : machine) (o : id) (x : obj),
+  SInv K b E W m -> get m o = Some x -> o_box x = BAlloc ->
+  match o_side x with
+  | Some s => w_cnt (sd_wk s) = N.of_nat (wrefs m o + cnt_wr o W) /\ sd_freed s = false /\
+              w_acc (sd_wk s) = true /\ h_side (o_hdr x) = true /\ w_cnt (sd_wk s) <= max_weak
+  | None => (wrefs m o + cnt_wr o W = 0)%nat /\ h_side (o_hdr x) = false
+  end.
+Check C09_obs_weak_count :
+  forall (K : conf) (b : bool) (E : list id) (self : option id) (l : loc) (m : machine) (r : rloc) (o : id),
+  SInv K b E [] m -> resolve self l m = (m, Some r) -> read_loc r m = Some o ->
+  (exists x : obj, get m o = Some x /\ o_box x = BAlloc /\ o_vst x = VLive /\ mem_id o (dead m) = false /\ o_ismap x = false) ->
+  exists (rc : N) (fin : bool),
+    cmd_obs self l m = ok (emit (EObs o rc (N.of_nat (wrefs m o)) fin true) m) ROk.
+Check C09_weak_weak_count :
+  forall (K : conf) (b : bool) (E : list id) (W : list wref) (m : machine) (o : id),
+  SInv K b E W m -> (0 < wrefs m o + cnt_wr o W)%nat ->
+  weak_weak_count (WTo o) m = (m, N.of_nat (wrefs m o + cnt_wr o W)).
+Check C09_side_alive_while_weak :
+  forall (K : conf) (b : bool) (E : list id) (m : machine) (o : id) (x : obj),
+  SInv K b E [] m -> get m o = Some x -> o_box x = BFreed -> (0 < wrefs m o)%nat ->
+  exists s : side, o_side x = Some s /\ sd_freed s = false /\ w_cnt (sd_wk s) = N.of_nat (wrefs m o) /\
+                   w_acc (sd_wk s) = false.
+Check C09_side_alive_while_weak_alloc :
+  forall (K : conf) (b : bool) (E : list id) (m : machine) (o : id) (x : obj),
+  SInv K b E [] m -> get m o = Some x -> o_box x = BAlloc -> (0 < wrefs m o)%nat ->
+  exists s : side, o_side x = Some s /\ sd_freed s = false /\ w_cnt (sd_wk s) = N.of_nat (wrefs m o) /\
+                   w_acc (sd_wk s) = true.
+Check C09_side_freed_no_weak :
+  forall (K : conf) (b : bool) (E : list id) (m : machine) (o : id) (x : obj) (s : side),
+  SInv K b E [] m -> get m o = Some x -> o_box x <> BNotYet -> o_side x = Some s -> sd_freed s = true ->
+  wrefs m o = 0%nat /\ o_box x = BFreed.
+Check C09_side_freed_once :
+  forall m : machine, NoBad m ->
+  forall o : nat, ~ In (EBad DoubleFree o) (log m) /\ ~ In (EBad UseAfterFree o) (log m) /\
+                  ~ In (EBad UseAfterDrop o) (log m) /\ ~ In (EBad DoubleDrop o) (log m).
